@@ -321,21 +321,21 @@ func c12Parts() []c12Part {
 
 	return []c12Part{{
 		name: "hashprefix-ip", list: "hp", versions: []string{hp1, hp2},
-		hosts: []string{"danger.test", "fresh2.test"}, qtypes: []uint16{dns.TypeA, dns.TypeAAAA, dns.TypeHTTPS, dns.TypeTXT},
+		hosts: []string{"danger.test", "fresh2.test"}, qtypes: []uint16{dns.TypeA, dns.TypeAAAA, dns.TypeHTTPS, dns.TypeTXT, dns.TypeCAA},
 		newSubj: func() c12Subject { return c12NewHP("192.0.2.66") },
 	}, {
 		name: "hashprefix-host", list: "hp", versions: []string{hp1, hp2},
-		hosts: []string{"danger.test", "fresh2.test"}, qtypes: []uint16{dns.TypeA, dns.TypeHTTPS, dns.TypeMX},
+		hosts: []string{"danger.test", "fresh2.test"}, qtypes: []uint16{dns.TypeA, dns.TypeHTTPS, dns.TypeMX, dns.TypeCAA},
 		newSubj: func() c12Subject { return c12NewHP("blocked.example") },
 	}, {
 		name: "safesearch", list: "ss",
 		versions: []string{"|engine.test^$dnsrewrite=NOERROR;A;192.0.2.77\n|video.test^$dnsrewrite=NOERROR;CNAME;safe.video.test\n", "|engine.test^$dnsrewrite=NOERROR;A;192.0.2.88\n"},
-		hosts:    []string{"engine.test", "video.test"}, qtypes: []uint16{dns.TypeA, dns.TypeAAAA, dns.TypeHTTPS, dns.TypeTXT},
+		hosts:    []string{"engine.test", "video.test"}, qtypes: []uint16{dns.TypeA, dns.TypeAAAA, dns.TypeHTTPS, dns.TypeTXT, dns.TypeCAA},
 		newSubj: c12NewSS,
 	}, {
 		name: "rulelist", list: "rl",
 		versions: []string{"||blocked.test^\n||rw.test^$dnsrewrite=1.2.3.4\n@@||allowed.test^\n||only4.test^$dnstype=A\n", "||other.test^\n||rw.test^$dnsrewrite=5.6.7.8\n||allowed.test^\n"},
-		hosts:    []string{"blocked.test", "rw.test", "allowed.test", "only4.test", "ans-blocked.test"}, qtypes: []uint16{dns.TypeA, dns.TypeAAAA},
+		hosts:    []string{"blocked.test", "rw.test", "allowed.test", "only4.test", "ans-blocked.test"}, qtypes: []uint16{dns.TypeA, dns.TypeAAAA, dns.TypeCAA},
 		newSubj: c12NewRL,
 	}}
 }
